@@ -49,11 +49,11 @@ theorem see_sign_spec_legal (K : Keys) (p : Pos) (hw : WF p = true) (hmat : Lega
     Fide.signOf v = Fide.signOf (Fide.see pieceValue (absPos p) m.src m.tgt) :=
   see_sign_spec_partial K p hw m hcap hkind hgen q hq hlegal (men_le_32 p hw hmat) v hv
 
--- all hypotheses hold together for a concrete capture (`C18b.ex_hyps`: Rd2xd5 in the example position of C18, `see` gives 910,
--- the specification 500)
+-- all hypotheses hold together for a concrete capture (`C18b.ex_hyps`: Rd2xd5 in the example position of C18, `see` gives
+-- `c18ExampleSee` (currently 910), the specification `c18ExampleSpec` (currently 500))
 example (K : Keys) : ∃ m q v, WF c18ExamplePos = true ∧ LegalMaterial c18ExamplePos ∧ c18ExamplePos.at m.tgt ≠ 0 ∧ m.kind ≠ 2 ∧
     m ∈ genMoves c18ExamplePos ∧ makeMove K c18ExamplePos m = some q ∧ isLegal q = true ∧ see c18ExamplePos m = some v ∧
-    v = 910 ∧ Fide.signOf v = Fide.signOf (Fide.see pieceValue (absPos c18ExamplePos) m.src m.tgt) := by
+    v = c18ExampleSee ∧ Fide.signOf v = Fide.signOf (Fide.see pieceValue (absPos c18ExamplePos) m.src m.tgt) := by
   obtain ⟨m, q, v, hw, hcap, hk2, hm, hq, hleg, _, hv, _, _, hv9⟩ := C18b.ex_hyps K
   have hmat : LegalMaterial c18ExamplePos := by decide +kernel
   exact ⟨m, q, v, hw, hmat, hcap, hk2, hm, hq, hleg, hv, hv9,
